@@ -565,9 +565,19 @@ impl<'a> VisitMut for Rw<'a> {
                         news.push(syn::parse2(quote!( #el = #tmp . #idx ; )).unwrap());
                     }
                     self.log.add("R9", "destructuring-assign", format!("{}", asg.to_token_stream()));
+                    let orig_text = if self.after_pats.is_empty() { String::new() } else { squash(&s.to_token_stream().to_string()) };
                     for mut n in news {
                         self.visit_stmt_mut(&mut n);
                         out.push(n);
+                    }
+                    // `after["(a, b) = e;"]` anchors refer to the source statement
+                    for (pi, pat) in self.after_pats.clone().iter().enumerate() {
+                        if *pat == orig_text {
+                            self.after_hits[pi] += 1;
+                            if self.after_occ[pi].map_or(true, |k| self.after_hits[pi] == k) {
+                                out.push(marker("__vx_after", Some(pi)));
+                            }
+                        }
                     }
                     continue;
                 }
